@@ -1,4 +1,13 @@
 """Per-property tables: pinned theorems (Properties.v), history generators."""
+import json
+import os
+
+_T = json.load(open(os.path.join(os.path.dirname(os.path.abspath(__file__)), "pqv_theorems.json")))
+
+
+def theorems_of(prop):
+    return [t for t in _T if t["prop"] == prop]
+
 
 TRUSTED_BASE = [
     "Coq 8.16.1 kernel (coqc, full .vo build; vm_compute only in Witnesses/cross-checks; no native_compute)",
@@ -39,7 +48,7 @@ def tiers(quick, thorough_extra):
 PROPS = {
     # drop: fields of the trace lines this property does NOT compare ('t' = comparison counts, 'hq' = raw tables)
     "C01": dict(
-        theorems=[], drop=["t"],
+        theorems=None, drop=["t"],
         gens=tiers(
             [builds("pq", 5), rnd("pq", "core", 2000, 60), rnd("pq", "bulk", 1000, 60, exclude="serde,deser,eq"),
              rnd("pq", "iter", 800, 50, exclude=NOT_ITERMUT), rnd("pq", "core", 500, 40, prios="extreme"),
@@ -47,7 +56,7 @@ PROPS = {
             [builds("pq", 7), rnd("pq", "all", 20000, 80), rnd("pq", "core", 2000, 600, keys=300, prios="wide")]),
     ),
     "C02": dict(
-        theorems=[], drop=["t"],
+        theorems=None, drop=["t"],
         gens=tiers(
             [builds("dpq", 5), rnd("dpq", "core", 2000, 60), rnd("dpq", "bulk", 1000, 60, exclude="serde,deser,eq"),
              rnd("dpq", "iter", 800, 50, exclude=NOT_ITERMUT), rnd("dpq", "core", 500, 40, prios="extreme"),
@@ -55,7 +64,7 @@ PROPS = {
             [builds("dpq", 7), rnd("dpq", "all", 20000, 80), rnd("dpq", "core", 2000, 600, keys=300, prios="wide")]),
     ),
     "C03": dict(
-        theorems=[], drop=["t", "hq"],
+        theorems=None, drop=["t", "hq"],
         gens=tiers(
             [rnd("both", "core", 3000, 60), rnd("both", "core", 1000, 60, prios="wide", keys=30),
              rnd("both", "bulk", 1000, 50, exclude="serde,deser,eq,convert"), builds("pq", 4), builds("dpq", 4),
@@ -63,14 +72,14 @@ PROPS = {
             [rnd("both", "all", 20000, 80), builds("pq", 6), builds("dpq", 6)]),
     ),
     "C04": dict(
-        theorems=[], drop=["t"],
+        theorems=None, drop=["t"],
         gens=tiers(
             [rnd("both", "all", 3000, 60), rnd("both", "iter", 1500, 50), rnd("both", "core", 500, 300, keys=100, prios="wide"),
              builds("pq", 4), builds("dpq", 4)],
             [rnd("both", "all", 30000, 80), builds("pq", 6), builds("dpq", 6)]),
     ),
     "C05": dict(
-        theorems=['C05_pq_cost', 'C05_dpq_cost'],
+        theorems=None,
         gens=tiers(
             [rnd("both", "core", 200, 1500, keys=1000, prios="wide"),
              rnd("both", "bulk", 300, 200, keys=200, prios="wide", exclude="serde,deser,eq,sortedvec,intovec,extend"),
@@ -78,7 +87,7 @@ PROPS = {
             [rnd("both", "core", 400, 6000, keys=4000, prios="wide"), rnd("both", "all", 10000, 80)]),
     ),
     "C06": dict(
-        theorems=[], drop=["t", "hq"],
+        theorems=None, drop=["t", "hq"],
         gens=tiers(
             [rnd("both", "iter", 2500, 50, exclude="itermut,iter,intoiter,drain", boost="sortediter:3"),
              rnd("both", "bulk", 1000, 50, exclude="serde,deser,eq,retain,retainmut,intovec", boost="sortedvec:6"),
@@ -86,14 +95,14 @@ PROPS = {
             [rnd("both", "iter", 20000, 80, exclude="itermut,iter,intoiter,drain", boost="sortediter:3"), builds("dpq", 7)]),
     ),
     "C07": dict(
-        theorems=[], drop=["t"],
+        theorems=None, drop=["t"],
         gens=tiers(
             [rnd("both", "bulk", 4000, 50, exclude="serde,deser,eq,retain,retainmut,sortedvec,intovec,clone"),
              rnd("both", "bulk", 800, 120, keys=60, prios="wide", exclude="serde,deser,eq,retain,retainmut,sortedvec,intovec,clone")],
             [rnd("both", "bulk", 30000, 80, exclude="serde,deser,eq,retain,retainmut")]),
     ),
     "C08": dict(
-        theorems=[], drop=["t"],
+        theorems=None, drop=["t"],
         gens=tiers(
             [rnd("both", "iter", 2500, 50, exclude=NOT_ITERMUT, boost="popif:4"),
              rnd("both", "bulk", 1500, 50, exclude="serde,deser,eq,fromvec,fromiter,extend,append,convert,clone,sortedvec,intovec", boost="retain:4,retainmut:4,popif:3"),
@@ -101,25 +110,25 @@ PROPS = {
             [rnd("both", "iter", 15000, 80, exclude=NOT_ITERMUT, boost="popif:4"), builds("dpq", 6)]),
     ),
     "C09": dict(
-        theorems=['C09_itermut', 'C09_itermut_exact', 'C09_itermut_fused', 'C09_itermut_adaptor_len'], drop=["t", "hq"],
+        theorems=None, drop=["t", "hq"],
         gens=tiers(
             [rnd("both", "iter", 5000, 40, exclude=NOT_ITERMUT, boost="itermut:2")],
             [rnd("both", "iter", 40000, 60, exclude=NOT_ITERMUT, boost="itermut:2")]),
     ),
     "C10": dict(
-        theorems=[], mode="faults",
+        theorems=None, mode="faults",
         gens=tiers(
             [rnd("both", "fuse", 3000, 50)],
             [rnd("both", "fuse", 30000, 60)]),
     ),
     "C11": dict(
-        theorems=[], drop=["t"],
+        theorems=None, drop=["t"],
         gens=tiers(
             [rnd("both", "core", 4000, 60, boost="pushinc:5,pushdec:5"), builds("pq", 5), builds("dpq", 5)],
             [rnd("both", "core", 30000, 80, boost="pushinc:5,pushdec:5"), builds("pq", 6), builds("dpq", 6)]),
     ),
     "C12": dict(
-        theorems=[], drop=["t", "hq"],
+        theorems=None, drop=["t", "hq"],
         gens=tiers(
             [rnd("both", "core", 3000, 60, boost="peekmut:4,getmut:4,get:3"),
              rnd("both", "iter", 1500, 50, exclude=NOT_ITERMUT),
@@ -127,39 +136,43 @@ PROPS = {
             [rnd("both", "all", 30000, 80, exclude="extend,fromiter")]),
     ),
     "C13": dict(
-        theorems=['C13_dq', 'C13_dq_adaptor_len', 'C13_sorted_adaptor_len'], drop=["t", "hq"],
+        theorems=None, drop=["t", "hq"],
         gens=tiers(
             [rnd("both", "iter", 5000, 40, exclude="itermut")],
             [rnd("both", "iter", 40000, 60, exclude="itermut")]),
     ),
     "C14": dict(
-        theorems=[], drop=["t", "hq"],
+        theorems=None, drop=["t", "hq"],
         gens=tiers(
             [rnd("both", "bulk", 4000, 50, exclude="serde,deser,retain,retainmut,sortedvec,intovec", boost="eq:6,clone:4")],
             [rnd("both", "bulk", 30000, 80, exclude="serde,deser", boost="eq:6,clone:4")]),
     ),
     "C15": dict(
-        theorems=[], drop=["t"],
+        theorems=None, drop=["t"],
         gens=tiers(
             [rnd("both", "bulk", 4000, 50, exclude="retain,retainmut,sortedvec,intovec,append,extend,fromiter,fromvec", boost="serde:6,deser:6")],
             [rnd("both", "bulk", 30000, 80, boost="serde:6,deser:6")]),
     ),
     "C16": dict(
-        theorems=[], drop=["t"],
+        theorems=None, drop=["t"],
         gens=tiers(
             [rnd("both", "iter", 4000, 50, exclude="itermut,iter,intoiter,sortediter", boost="drain:6,clear:20")],
             [rnd("both", "iter", 30000, 80, exclude="itermut", boost="drain:6,clear:20")]),
     ),
     "C17": dict(
-        theorems=[], drop=["t"],
+        theorems=None, drop=["t"],
         gens=tiers(
             [rnd("both", "cap", 4000, 60)],
             [rnd("both", "cap", 30000, 80)]),
     ),
     "C18": dict(
-        theorems=[], drop=["t", "hq"], same_seed=True,
+        theorems=None, drop=["t", "hq"], same_seed=True,
         gens=tiers(
             [rnd("both", "all", 1000, 60, hashmode=m) for m in (0, 1, 2, 3)],
             [rnd("both", "all", 8000, 80, hashmode=m) for m in (0, 1, 2, 3)]),
     ),
 }
+
+for _p, _d in PROPS.items():
+    _d["theorem_specs"] = theorems_of(_p)
+    _d["theorems"] = [t["name"] for t in _d["theorem_specs"]]
